@@ -609,6 +609,22 @@ fn check_table(case: &TableCase) -> Result<CaseInfo, Failure> {
         }
     }
 
+    // a type that was never registered has no answer (falling back to the host's own size and
+    // alignment would make the layout depend on the host)
+    for c in 0..CUSTOM_N {
+        if custom.contains(&c) {
+            continue;
+        }
+        let (host, got) = with_custom_type!(c, T => (HostTypeResolver.type_info::<T>(), catch_unwind(AssertUnwindSafe(|| resolver.type_info::<T>()))));
+        if let Ok(info) = got {
+            return Err(Failure::new(
+                "unregistered-type-answered",
+                format!("type {} was never registered in the table, yet the table answers {:?}", host.name, info),
+            ));
+        }
+        checked.set(checked.get() + 1);
+    }
+
     // every type of the standard table agrees with the host resolver
     let check_std = |host: TypeInfo, got: std::thread::Result<TypeInfo>| {
         checked.set(checked.get() + 1);
